@@ -429,6 +429,9 @@ pub enum Mutation {
     MountTmpfs { path: String },
     MountBind { src: String, dst: String },
     Umount { path: String },
+    /// fd-based mount exactly on the named dentry (symlinks and magic-links
+    /// included): src "" = a fresh tmpfs, otherwise a bind of src
+    MountOn { src: String, dst: String, nofollow: bool },
     /// renumber a harness slot descriptor (C09)
     Dup3Slot { slot: usize, newfd: i32 },
     Chmod { path: String, mode: u32 },
@@ -448,6 +451,7 @@ impl Mutation {
             Mutation::MountTmpfs { path } => json!(["mount_tmpfs", path]),
             Mutation::MountBind { src, dst } => json!(["mount_bind", src, dst]),
             Mutation::Umount { path } => json!(["umount", path]),
+            Mutation::MountOn { src, dst, nofollow } => json!(["mount_on", src, dst, nofollow]),
             Mutation::Dup3Slot { slot, newfd } => json!(["dup3slot", slot, newfd]),
             Mutation::Chmod { path, mode } => json!(["chmod", path, mode]),
         }
@@ -468,6 +472,7 @@ impl Mutation {
             "mount_tmpfs" => Mutation::MountTmpfs { path: s(1) },
             "mount_bind" => Mutation::MountBind { src: s(1), dst: s(2) },
             "umount" => Mutation::Umount { path: s(1) },
+            "mount_on" => Mutation::MountOn { src: s(1), dst: s(2), nofollow: a.get(3).and_then(|x| x.as_bool()).unwrap_or(false) },
             "dup3slot" => Mutation::Dup3Slot { slot: n(1) as usize, newfd: n(2) as i32 },
             "chmod" => Mutation::Chmod { path: s(1), mode: n(2) as u32 },
             _ => return None,
@@ -494,6 +499,13 @@ impl Mutation {
             Mutation::MountTmpfs { .. } => "mount_tmpfs",
             Mutation::MountBind { .. } => "mount_bind",
             Mutation::Umount { .. } => "umount",
+            Mutation::MountOn { src, .. } => {
+                if src.is_empty() {
+                    "mount_tmpfs_on"
+                } else {
+                    "mount_bind_on"
+                }
+            }
             Mutation::Dup3Slot { .. } => "dup3slot",
             Mutation::Chmod { .. } => "chmod",
         }
@@ -584,6 +596,26 @@ impl World {
             Mutation::Chmod { path, mode } => {
                 sys::fchmodat(libc::AT_FDCWD, &abs(path), *mode)?;
                 Ok(true)
+            }
+            Mutation::MountOn { src, dst, nofollow } => {
+                let dfl = libc::O_PATH | if *nofollow { libc::O_NOFOLLOW } else { 0 };
+                let dfd = sys::open(&abs(dst), dfl, 0)?;
+                let tree = if src.is_empty() {
+                    sys::fsmount_tmpfs()
+                } else {
+                    sys::open_tree(libc::AT_FDCWD, &abs(src), 1 /*OPEN_TREE_CLONE*/ | libc::O_CLOEXEC as u32)
+                };
+                let tree = match tree {
+                    Ok(t) => t,
+                    Err(e) => {
+                        sys::close(dfd);
+                        return Err(e);
+                    }
+                };
+                let r = sys::move_mount(tree, dfd);
+                sys::close(tree);
+                sys::close(dfd);
+                r.map(|_| true)
             }
             Mutation::Dup3Slot { .. } => Ok(false), // handled by the supervisor
         }
